@@ -265,7 +265,7 @@ class Run:
         m = re.search(r"EVENTS kind=record n=(\d+) histories=(\d+)", p.stdout)
         if p.returncode != 0 or not m:
             raise Infra("record driver failed: %s %s" % (p.stdout[-1000:], p.stderr[-2000:]))
-        body = ('CONSTANTS\n NH = 3\n Dev <- DevImpl\n WithRT = FALSE\n WithLaw = FALSE\nINIT TInit\nNEXT TNext\nINVARIANT Done\n'
+        body = ('CONSTANTS\n NH = 3\n Dev <- DevImpl\n WithRT = FALSE\n WithLaw = FALSE\n POpts <- DefaultOpts\nINIT TInit\nNEXT TNext\nINVARIANT Done\n'
                 'CHECK_DEADLOCK FALSE\nPOSTCONDITION AllConsumed\n')
         bad = self.validate_events(["%s.%d" % (pre, i) for i in range(chunks)], module="Trace_Api", cfg_body=body)
         nev = int(m.group(1))
